@@ -332,3 +332,38 @@ contract(A + 'ThreadPool._fetch_results', props=['C15'],
          raises={'Exception': 'raise_exceptions'},
          loops={0: dict(yield_type='opaque', inv=[], types={'task_result': 'opaque'}, body_trace=[_fetched_is_yielded],
                         raise_trace=[_failure_stops_pool])})
+
+
+# ---- ThreadPool.shutdown: one stop sentinel per worker; a forced shutdown first drops everything that is still queued -----------------
+def _one_sentinel(ex, st, k):
+    import z3
+    from pyvc.values import VNone
+    evs_ = st.trace[getattr(st, 'iter_start_trace', 0):]
+    h = st.heap[st.env['self'].ref]
+    ok = len(evs_) == 1 and evs_[0].name == 'put' and evs_[0].recv is not None and evs_[0].recv.t.eq(h['task_queue'].t) \
+        and len(evs_[0].args) == 1 and isinstance(evs_[0].args[0], VNone)
+    yield ('one_stop_sentinel_per_worker', z3.BoolVal(bool(ok)), 'each of the pool_size steps puts exactly one None (stop) on the task queue')
+
+
+def _forced_drops_queues(ex, st, post, result):
+    import z3
+    h = st.heap[post.env['self'].ref]
+    cq = [e for i, e in T.evs(st, '_consume_queue')]
+    force = ex.truth(st, post.env['force'])
+    ok = len(cq) in (0, 2)
+    g = z3.BoolVal(bool(ok))
+    if len(cq) == 2:
+        g = z3.And(g, force, z3.BoolVal(cq[0].args[0].t.eq(h['task_queue'].t) and cq[1].args[0].t.eq(h['result_queue'].t)))
+    else:
+        g = z3.And(g, z3.Not(force))
+    yield ('forced_shutdown_empties_both_queues_first', g,
+           'force=True: pending tasks and pending results are discarded (task queue, then result queue) before the sentinels are '
+           'queued; otherwise the queues are left alone')
+
+
+contract(A + 'ThreadPool.shutdown', props=['C15'],
+         types=dict(force='bool'), returns='none', default_callee='opaque',
+         opaque_spec={'_consume_queue': {}, 'put': {}},
+         opaque=['_consume_queue'],
+         loops={0: dict(inv=[], types={}, body_trace=[_one_sentinel])},
+         trace=[_forced_drops_queues])
